@@ -1,6 +1,6 @@
 import operator
 import threading
-from datetime import datetime
+import datetime
 try:
     from functools import lru_cache
 except ImportError:  # pragma: no cover
@@ -102,7 +102,7 @@ hs_date_str = Combine(
     Literal('-') +
     hs_digit + hs_digit)
 hs_date = hs_date_str.copy().setParseAction(
-    lambda toks: [datetime.strptime(toks[0], '%Y-%m-%d').date()])
+    lambda toks: [datetime.datetime.strptime(toks[0], '%Y-%m-%d').date()])
 
 hs_time_str = Combine(
     hs_digit + hs_digit +
@@ -120,7 +120,7 @@ def _parse_time(toks):
     time_fmt = '%H:%M:%S'
     if '.' in time_str:
         time_fmt += '.%f'
-    return [datetime.strptime(time_str, time_fmt).time()]
+    return [datetime.datetime.strptime(time_str, time_fmt).time()]
 
 
 hs_time = hs_time_str.copy().setParseAction(_parse_time)
